@@ -30,6 +30,9 @@ from sqvm.prove import Prover, StopJob
 from sqvm.corpus import std_sources, example_sources, test_sources, spec_sources
 from sqvm.gen_calls import programs as gen_call_programs, generic_programs
 from sqvm.gen_tail import programs as gen_tail_programs
+from sqvm.gen_patterns import programs as gen_pattern_programs
+from sqvm.gen_seq import programs as gen_seq_programs
+from sqvm.gen_partial import programs as gen_partial_programs
 
 PROP = "C01"
 MAX_SHAPES = 24
@@ -329,8 +332,24 @@ def main():
         gt = [(n, s) for n, s in gt if n.rsplit("/", 1)[1] in ("0", "3", "6")]
     for n, s in gt:
         jobs.append((n, s + ",\n&f", timeout_ms, rep.seed, 2, shape_budget_s, s + ",\n{LIT} f"))
+    # generated pattern-matching shapes: subject type x pattern x context x result, each function
+    # applied to every value of its subject type
+    gp = gen_pattern_programs()
+    if tier == "quick":
+        gp = random.Random(rep.seed).sample(gp, 1600)
+    for n, s in gp:
+        jobs.append((n, s + ",\n&f", timeout_ms, rep.seed, 2, shape_budget_s, s + ",\n{LIT} f"))
+    # generated sequence shapes: where a nil-able step sits in a sequence of 2-4 steps
+    gs = gen_seq_programs()
+    if tier == "quick":
+        gs = random.Random(rep.seed + 7).sample(gs, 900)
+    for n, s in gs:
+        jobs.append((n, s + ",\n&f", timeout_ms, rep.seed, 2, shape_budget_s, s + ",\n{LIT} f"))
+    # functions over partial-typed parameters (closed-world inhabitants from the program's tuples)
+    for n, s in gen_partial_programs():
+        jobs.append((n, s + ",\n&f", timeout_ms, rep.seed, 2, shape_budget_s, s + ",\n{LIT} f"))
     with mp.Pool(16) as pool:
-        results = pool.map(check_program, jobs, chunksize=1)
+        results = pool.map(check_program, jobs, chunksize=4)
     progs = 0
     tot = {"functions": 0, "shapes": 0, "skipped_opaque": 0, "unsupported_paths": 0, "bounded_paths": 0,
            "domain_errors": 0, "witnesses": 0, "budget_exhausted": 0, "rejected_by_compiler": 0,
